@@ -97,6 +97,14 @@ CLAIMED = {
         note="Decides transparency structurally for every frequency triple and window size; numerical equality of stored and recomputed values and the caller's choice of G13..G23 are not decided.",
         technique="extraction and symbolic composition of affine index maps (sympy) + linear-arithmetic entailment of bounds over CFG branch facts",
         ref="DESIGN.md §3 C15"),
+    "C02": dict(
+        text="Static formula and structure conformance of the two-particle Green's function: the four term insertions of addMultiterm carry the coefficients (-C(wj+wk); C(wi+wl); C*beta*wi, C(wk-wi); -C*beta*wj, C(wj-wl)) and poles "
+             "(Ej-Ei, Ek-Ej, El-Ek) with the right flags; both term classes evaluate to the documented rational forms incl. the delta branch decided on z1+z2-P1-P2 resp. z2+z3-P2-P3; in TwoParticleGFPart::compute the matrix element is "
+             "O1(1,2)O2(2,3)O3(3,4)CX4(4,1)*sign and energies/weights of states 1..4 come from their own blocks (index-space typing of four sparse iterators, reaching-definition inlining); permutations3 is the six permutations with parity; "
+             "the part is evaluated at (z1,z2,-z3)[perm]; prepare selects operators by perm[k] and closes the block chain; the frequency-table path accumulates exactly the call the on-demand path sums, compute before evaluation before purge.",
+        note="Equality with the triple Fourier integral and behaviour for numerically near-degenerate levels (runtime resonance decision) are not decided. The multi-term table is transcribed from the header documentation.",
+        technique="sympy normal forms over index-space typed atoms, symbolic environment (reaching definitions), constant-table evaluation, switch/loop structure rules",
+        ref="DESIGN.md §3 C02"),
 }
 
 NOT_YET = {}
